@@ -1121,7 +1121,15 @@ func (ck *checker) stepDeps(sv *sprintView, run flows.Run, fi *flowInfo, step fl
 		case "ticket_opened":
 			t := obj(e["ticket"])
 			if u := str(obj(t["topic"])["uuid"]); u != "" {
-				if _, ok := fixed["topic:"+u]; ok {
+				// the default topic stands in only for an open_ticket that names no topic; when every open_ticket executed on this
+				// node names one, a ticket in any other topic is a topic the run touched, and inspection has to list it
+				topicless := false
+				for _, a := range executed {
+					if str(a["type"]) == "open_ticket" && a["topic"] == nil {
+						topicless = true
+					}
+				}
+				if _, ok := fixed["topic:"+u]; ok || !topicless {
 					ev("ticket_opened.topic", ref{Kind: "topic", ID: u}, "open_ticket")
 				} else {
 					res.Count("ticket_topic_not_attributed(default_topic)", 1)
